@@ -245,16 +245,14 @@ def run(ctx):
     # freq_coarse three-way choice
     g = getter(mod, 'freq_coarse')
     tab = {}
-    for ex in (None, 2):
+    REQ = (10, 11, 12, 13, 14, 15, 16)
+    for ex in (None, 2, 3):
         for inp in (None, 'INP'):
             fe = FiniteEval({'self.every_x_freq': ex, 'self.input_freq': inp,
-                             'self.freq_required': 'REQ'}, where=TIME)
-            try:
-                tab[(ex, inp)] = fe.call(g)
-            except AnalysisError:
-                tab[(ex, inp)] = 'REQ[::x]'
-    want = {(None, None): 'REQ', (None, 'INP'): 'INP', (2, None): 'REQ[::x]',
-            (2, 'INP'): 'REQ[::x]'}
+                             'self.freq_required': REQ}, where=TIME)
+            tab[(ex, inp)] = fe.call(g)
+    want = {(None, None): REQ, (None, 'INP'): 'INP', (2, None): REQ[::2],
+            (2, 'INP'): REQ[::2], (3, None): REQ[::3], (3, 'INP'): REQ[::3]}
     ctx.check('C20.F2.pairing', 'Fourier.freq_coarse choice', tab == want,
               f'coarse frequencies are chosen as {tab}', ctx.where(mod, g),
               sample={'table': {str(k): v for k, v in tab.items()}})
